@@ -23,7 +23,9 @@ ID = "C02"
 MODULE = "mc.checks.c02"
 
 LICENCES = ["MIT", "0BSD", "GPL-3.0-or-later", "MIT+", "LicenseRef-a.b", "MIT OR Apache-2.0", "MIT AND 0BSD", "GPL-3.0-or-later WITH Autoconf-exception-3.0",
-            "MIT AND (0BSD OR ISC)", "(MIT OR 0BSD) AND ISC", "LicenseRef-x OR CC-BY-SA-4.0", "Apache-2.0 WITH LLVM-exception OR MIT"]
+            "MIT AND (0BSD OR ISC)", "(MIT OR 0BSD) AND ISC", "LicenseRef-x OR CC-BY-SA-4.0", "Apache-2.0 WITH LLVM-exception OR MIT",
+            # the same identifiers in another letter case (identifiers are case-sensitive; values must come back as written)
+            "mit", "Mit OR apache-2.0", "licenseref-X OR cc-by-sa-4.0"]
 HOLDERS = ["Jane Doe", "Free Software Foundation Europe e.V.", "Jane Doe <jane@example.com>", "Acme, Inc. <https://acme.example/>", "Müller & Söhne GmbH",
            "山田太郎", "O'Reilly \"Quoted\" Media", "The foo-bar Authors", "Doe, Jane and contributors", "3M Company", "jane doe (maintainer)", "A"]
 YEARS = [None, "2020", "2019-2021", "2019 - 2021", "2020,"]
@@ -325,15 +327,9 @@ def evaluate(c) -> R:
 
 
 def setup_worker():
-    from reuse import _LICENSING
-
     from ..cli import _install_logging
 
     _install_logging()
-
-    for lic in LICENCES:
-        if str(_LICENSING.parse(lic)) != lic:
-            raise HarnessError(f"expression {lic!r} is not in canonical form ({_LICENSING.parse(lic)})")
 
 
 def vacuity(st):
